@@ -229,6 +229,8 @@ module Z :
 
   val min : z -> z -> z
 
+  val abs : z -> z
+
   val to_nat : z -> nat
 
   val of_nat : nat -> z
@@ -257,6 +259,8 @@ module Z :
 val eqb0 : char list -> char list -> bool
 
 val append : char list -> char list -> char list
+
+val length0 : char list -> nat
 
 type exn =
 | FlamaException
@@ -395,6 +399,8 @@ val e_result : ('a1 -> sexp) -> 'a1 result -> sexp
 val d_str : sexp -> char list option
 
 val d_z : sexp -> z option
+
+val d_nat : sexp -> nat option
 
 val d_bool : sexp -> bool option
 
@@ -1431,6 +1437,8 @@ val cpf : fm -> z list
 
 val leaf_depths : fm -> z list
 
+val is_group_feature : feature -> bool
+
 val group_names : fm -> char list list
 
 val solitary_names : fm -> char list list
@@ -1448,6 +1456,66 @@ val all_ctc_idx : fm -> nat list result
 val metric : fm -> char list -> entry result
 
 val report : fm -> char list list option -> entry list result
+
+type draw =
+| DChoice of nat
+| DUniform of z * z
+| DRandint of z
+
+type dec = { d_m : z; d_e : z }
+
+val digits_to_z : char list -> z -> z option
+
+val split_at : char -> char list -> char list -> char list * char list option
+
+val str_len : char list -> z
+
+val signed : char list -> bool * char list
+
+val dec_of_repr : char list -> dec option
+
+val dec_of_bound : aval -> dec option
+
+val dec_leb : dec -> dec -> bool
+
+val dot_digits : aval -> z
+
+val round_dec : z -> z -> z -> dec
+
+val is_float : aval -> bool
+
+val is_int : aval -> bool
+
+type gval =
+| GElem of aval
+| GInt of z
+| GDec of dec
+| GBound of aval
+| GNone
+
+val value_from_ranges : range list -> draw list -> (gval * draw list) result
+
+val value_from_domain : domain -> draw list -> (gval * draw list) result
+
+val gval_aval : gval -> aval
+
+val has_attr : char list -> feature -> bool
+
+val targeted : bool -> char list -> feature -> bool
+
+val decide :
+  feature list -> bool -> char list -> domain -> draw list -> (aval option
+  list * draw list) result
+
+val lookup_value :
+  char list -> feature list -> aval option list -> aval option
+
+val apply_values :
+  char list -> domain -> feature list -> aval option list -> feature ->
+  feature
+
+val gen_random_attribute :
+  char list -> domain option -> bool -> draw list -> fm -> fm result
 
 val e_aval : aval -> sexp
 
@@ -1582,6 +1650,8 @@ val e_entry : entry -> sexp
 val e_sels : char list list list -> sexp
 
 val op_export_sat : fm -> sexp
+
+val d_draw : sexp -> draw option
 
 val bad : char list -> sexp
 
